@@ -170,6 +170,9 @@ class Lib:
              'numpy.asarray', 'numpy.asanyarray', 'numpy.atleast_2d', 'numpy.atleast_1d', 'numpy.tile', 'numpy.repeat', 'numpy.squeeze',
              'sklearn.utils.check_array', 'sklearn.utils.validation.check_array'}
   STACK_TT = {'numpy.vstack', 'numpy.hstack', 'numpy.column_stack', 'numpy.concatenate'}
+  # results that depend on the SHAPE of the argument only (a translation does not change shapes)
+  SHAPE_ONLY = {'builtins.len', 'numpy.shape', 'numpy.ndim', 'numpy.size', 'numpy.zeros_like', 'numpy.ones_like', 'numpy.empty_like',
+                'numpy.full_like', 'builtins.isinstance', 'builtins.type', 'builtins.hasattr', 'builtins.callable'}
   INV_OF_POS = {'numpy.cov', 'sklearn.metrics.pairwise_distances', 'sklearn.metrics.euclidean_distances', 'nn.kneighbors'}
 
   def _type_results(self, name, out, args):
@@ -183,6 +186,8 @@ class Lib:
         a0 = args[0]
         items = a0.items if isinstance(a0, (VTuple, VList)) else [a0]
         TT.set_tt(q, res, TT.same([TT.tt_of(q, x) for x in items])) if self._unset(q, res) else None
+      elif name in self.SHAPE_ONLY:
+        TT.set_tt(q, res, TT.INV)
       elif name in self.INV_OF_POS:
         TT.set_tt(q, res, TT.BAD if TT.BAD in ts else TT.INV) if self._unset(q, res) else None
       elif name == 'numpy.unique':
